@@ -468,3 +468,13 @@ Proof.
   unfold holds_on. destruct (read_itp ls) as [r|]; [|discriminate]. destruct (canon m) as [c|]; [|discriminate].
   intros H. apply itp_eqb_eq in H. subst. eauto.
 Qed.
+
+(* the renumbering never merges two atoms and never leaves an atom of the molecule without an index *)
+Lemma rank_injective m k1 k2 r : rank m k1 = Some r -> rank m k2 = Some r -> k1 = k2.
+Proof.
+  intros H1 H2. destruct (rank_spec m k1 r H1) as (_ & a1 & N1 & K1). destruct (rank_spec m k2 r H2) as (_ & a2 & N2 & K2).
+  rewrite N1 in N2. injection N2 as <-. congruence.
+Qed.
+
+Lemma rank_total m k : In k (map a_key (m_atoms m)) -> exists r, rank m k = Some r.
+Proof. intros H. unfold rank. apply rank_from_some. apply sorted_nodes_keys. exact H. Qed.
